@@ -1,6 +1,7 @@
 import DuneVerif.Proofs.C08Ev2Scaled
 import DuneVerif.Proofs.C08Ev3Top
 import DuneVerif.Proofs.C08Lapack
+import DuneVerif.Proofs.C08Outputs
 /-!
 # C08 — property theorems: the closed-form eigenvalue routines in exact arithmetic
 
@@ -427,5 +428,95 @@ example : IsLeftEig 2 (fun i j => if i = 0 ∧ j = 0 then (1 : ℤ) else if i = 
   intro c hc
   have : c = 0 ∨ c = 1 := by omega
   rcases this with rfl | rfl <;> simp [sumTo]
+
+/-! ## The caller's output containers of the dynamic non-symmetric routine (any content on entry, any history) -/
+
+/-- **nonsym_dynamic_outputs_fresh.** One call of `DynamicMatrixHelp::eigenValuesNonSym` on containers in an
+*arbitrary* state `st` (left over from a call with a larger or smaller matrix, pre-sized by the caller, vectors of the
+wrong length, empty): no access outside the containers (`some`), afterwards `eigenValues` holds exactly the `n` values
+of this call and — if vectors were requested — `eigenVectors` holds exactly `n` vectors with `n` entries each, vector
+`i` being column `i` of LAPACK's `vr`; nothing of the previous content survives.  Without a vector request the
+caller's list is not touched. -/
+theorem nonsym_dynamic_outputs_fresh {C K : Type} (zc : C) (zk : K) (st : NsOut C K) (c : NsCall C K) :
+    ∃ out, nsStep zc zk st c = some out ∧
+      out.vals = (List.range c.n).map c.w ∧
+      (c.wantVec = true → out.vecs.length = c.n ∧
+        ∀ i, i < c.n → out.vecs[i]? = some ((List.range c.n).map fun j => c.vr (c.n * i + j))) ∧
+      (c.wantVec = false → out.vecs = st.vecs) := by
+  refine ⟨_, nsStep_eq zc zk st c, rfl, ?_, ?_⟩
+  · intro h
+    simp only [h, if_true]
+    exact ⟨nsFreshVecs_length c, fun i hi => nsFreshVecs_get c i hi⟩
+  · intro h
+    simp [h]
+
+/-- a container left over from a 3x3 call, reused for a 2x2 call -/
+example : nsStep (0 : Int) (0 : Int) ⟨[7, 8, 9], [[1, 2, 3], [4, 5, 6], [7, 8, 9]]⟩
+    ⟨2, true, fun i => 10 + i, fun k => 100 + k⟩ = some ⟨[10, 11], [[100, 101], [102, 103]]⟩ := by decide
+
+/-- a list of empty vectors, and one vector too few -/
+example : nsStep (0 : Int) (0 : Int) ⟨[], [[], []]⟩
+    ⟨3, true, fun i => i, fun k => k⟩ = some ⟨[0, 1, 2], [[0, 1, 2], [3, 4, 5], [6, 7, 8]]⟩ := by decide
+
+/-- why both resizes are needed: without the inner `v.resize(N)` the copy keeps a stale tail (longer vector) or
+writes past the end (shorter vector) -/
+example : storePrefix 2 (fun k => (100 + k : Int)) [1, 2, 3] = some [100, 101, 3] := by decide
+example : storePrefix 2 (fun k => (100 + k : Int)) [1] = none := by decide
+
+/-- **nonsym_dynamic_history.** Every history of calls that reuse the same two containers, started from any content:
+no call ever accesses a container out of bounds, and after the last call `c` the containers hold exactly what a call
+of `c` alone on fresh containers returns (`eigenVectors`: of the last call that requested vectors). -/
+theorem nonsym_dynamic_history {C K : Type} (zc : C) (zk : K) (st : NsOut C K) (cs : List (NsCall C K))
+    (c : NsCall C K) :
+    ∃ out, nsRun zc zk st (cs ++ [c]) = some out ∧ out.vals = nsFreshVals c ∧
+      (c.wantVec = true → out.vecs = nsFreshVecs c) ∧
+      nsRun zc zk ⟨[], []⟩ [c] = some ⟨nsFreshVals c, if c.wantVec then nsFreshVecs c else []⟩ := by
+  refine ⟨_, nsRun_eq zc zk (cs ++ [c]) st, lastVals_append _ cs c, ?_, ?_⟩
+  · intro h
+    show lastVecs st.vecs (cs ++ [c]) = nsFreshVecs c
+    rw [lastVecs_append, h]
+    rfl
+  · rw [nsRun_eq]
+    rfl
+
+example : nsRun (0 : Int) (0 : Int) ⟨[], []⟩
+    [⟨3, true, fun i => i, fun k => k⟩, ⟨1, false, fun _ => 5, fun _ => 0⟩, ⟨2, true, fun i => 10 + i, fun k => 100 + k⟩]
+    = some ⟨[10, 11], [[100, 101], [102, 103]]⟩ := by decide
+
+/-- **nonsym_dynamic_vectors_right.** Hand-over and copy-back together, for any previous content of the caller's list:
+if the columns of LAPACK's result `Z` are right eigenvectors of what it was given, the list returned for `A` consists
+of `n` vectors with `n` entries, and vector `i` is a right eigenvector of `A` for `w i`. -/
+theorem nonsym_dynamic_vectors_right {R : Type} [CommRing R] (n : Nat) (A : Nat → Nat → R)
+    (Z : Nat → Nat → R) (w : Nat → R)
+    (hZ : ∀ c, c < n → IsRightEig n (lapackSeesNonSymD n A) (w c) (fun k => Z k c))
+    (st : NsOut R R) :
+    ∃ out, nsStep 0 0 st ⟨n, true, w, fortranStore n Z⟩ = some out ∧ out.vals.length = n ∧ out.vecs.length = n ∧
+      ∀ i, i < n → ∃ v, out.vecs[i]? = some v ∧ v.length = n ∧ out.vals[i]? = some (w i) ∧
+        IsRightEig n A (w i) (fun k => v.getD k 0) := by
+  refine ⟨_, nsStep_eq 0 0 st _, nsFreshVals_length _, ?_, ?_⟩
+  · simp only [if_true]
+    exact nsFreshVecs_length _
+  · intro i hi
+    refine ⟨(List.range n).map fun j => fortranStore n Z (n * i + j), ?_, ?_, ?_, ?_⟩
+    · simp only [if_true]
+      exact nsFreshVecs_get ⟨n, true, w, fortranStore n Z⟩ i hi
+    · rw [List.length_map, List.length_range]
+    · show ((List.range n).map w)[i]? = some (w i)
+      rw [List.getElem?_map, List.getElem?_range hi]
+      rfl
+    · have hrow : ∀ k, k < n →
+          ((List.range n).map fun j => fortranStore n Z (n * i + j)).getD k 0 = copyBack n Z i k := by
+        intro k hk
+        rw [List.getD_eq_getElem?_getD, List.getElem?_map, List.getElem?_range hk]
+        show fortranStore n Z (n * i + k) = unpackRowMajor n (fortranStore n Z) i k
+        unfold unpackRowMajor
+        rw [Nat.mul_comm]
+      have hr := (lapack_handover_nonsym_dynamic n A).2 Z w hZ i hi
+      intro r hr'
+      beta_reduce
+      rw [hrow r hr', ← hr r hr']
+      apply sumTo_congr
+      intro k hk
+      rw [hrow k hk]
 
 end DV.C08
